@@ -927,7 +927,8 @@ def oracle(case, impl):
                     ok = False
                 else:
                     typ = int(d['tl'])
-                    nack = None if nk in ('~', 'n') else int(nk)
+                    # a Nack header without NackReason is a Nack with reason None = 0 (NDNLPv2)
+                    nack = None if nk == '~' else 0 if nk == 'n' else int(nk)
         kind, name = 'drop', None
         if ok:
             if nack is not None:
